@@ -43,12 +43,22 @@ from pyvc.symexec import chain_flat_fn, view_source_fn, odict_wf, TupleSort
 F_CP = OVR.F_CP
 CPo = ObjSort('ConfigParser'); OVL = OVR.OVL
 cp_fp = z3.Function('constructed_from_file', CPo, OVR.TF); cp_ov = z3.Function('constructed_with_overrides', CPo, OVL); cp_ad = z3.Function('constructed_with_additions', CPo, OVL)
+from . import tableform_dups as TFD
+def _cp_init_post(v, old, res):
+    """the parser object holds the file with the edits applied (contract of _init_config_parser) and has passed both duplicate checks"""
+    raw = v.field('self', '_config_parser')
+    S1 = OVR.ov_fold(OVR.parsed(v.fp), v.overrides, z3.Length(v.overrides)); L = z3.String('L!ci'); secs = TFD.sections_of(raw); keys = DU.sec_keys(DU.sec_of(raw, z3.StringVal('Pair')))
+    return [raw == OVR.add_fold(S1, v.additional, z3.Length(v.additional)),
+            z3.Implies(DU.has_sec(raw, z3.StringVal('Pair')), DU.no_dups(keys, z3.Length(keys))),
+            z3.ForAll([L], TFD.count_of(L, secs, z3.Length(secs)) <= 1)]
+_CFG_ERRORS = ['ConfigParserException', 'ConfigParserDuplicateEntryException', 'ConfigOverrideException', 'ConfigOverrideDuplicateException']
 REG.add(Contract(F_CP, 'ConfigParser.__init__',
-    params=[('self', T.Obj('ConfigParser')), ('fp', T.Obj('TextFile')), ('overrides', T.List(T.Obj('ConfigParserOverrideTuple'))), ('additional', T.List(T.Obj('ConfigParserOverrideTuple')))],
-    ensures=lambda v, old, res: [cp_fp(v.self) == v.fp, cp_ov(v.self) == v.overrides, cp_ad(v.self) == v.additional], trusted=True,
-    may_raise=lambda v: [('ConfigurationException', z3.Bool('edits_or_file_rejected'))],
-    note='names the constructor arguments of a parser object (ghost observers); what the parser then contains is the contract of _init_config_parser (contracts/overrides.py), '
-         'which __init__ calls with exactly these arguments before the duplicate checks', props=['C14']))
+    params=[('self', T.New('ConfigParser')), ('fp', T.Obj('TextFile')), ('overrides', T.List(T.Obj('ConfigParserOverrideTuple'))), ('additional', T.List(T.Obj('ConfigParserOverrideTuple')))],
+    requires=OVR._additions_have_values,
+    ensures=_cp_init_post, post_names=['holds-the-file-with-the-edits-applied', 'no-pair-defined-twice', 'no-table-form-defined-twice'],
+    raises_when=lambda v, old, exc: [z3.BoolVal(exc.cls in _CFG_ERRORS)], on_raise=lambda v, old: [], raises_classes=['ConfigurationException'],
+    definitions=OVR.model_axioms, carries=['post', 'raises'], props=['C14', 'C20']))
+REG.get(F_CP, 'ConfigParser.__init__').names_self = lambda v, old: [cp_fp(v.self) == v.fp, cp_ov(v.self) == v.overrides, cp_ad(v.self) == v.additional]
 # the filtered view reads four list properties of the parser it wraps
 for _n, _t in (('pair', 'PairEntry'), ('eam_density_fs', 'PairEntry'), ('eam_embed', 'SingleEntry'), ('eam_density', 'SingleEntry')):
     REG.classes['ConfigParser'].fields[_n] = T.List(T.Obj(_t))
